@@ -119,11 +119,11 @@ and associated-field width of the `k+1`-th element flagged present, into a value
 type; the operator state is left alone.  FM 94 lets a bit-map refer to the N elements *preceding*
 the operator with N smaller than their number; the library only supports bit-maps over all of them
 (it warns otherwise) and the statement is about exactly that reading. -/
-theorem C04_marker_refers (bsq0 bsq : List Node) (ddo : DDO) (r : Int) (d : DPBM) (n : Node) (k pos q : Nat) (cbm : Node)
+theorem C04_marker_refers (bsq0 : List Node) (bsq : Unit → List Node) (ddo : DDO) (r : Int) (d : DPBM) (n : Node) (k pos q : Nat) (cbm : Node)
     (hd : d.dp = zeroBits (dataPositions bsq0).length (bitmapNodes bsq0) 0 ∧ d.index = dataPositions bsq0)
     (hm : isMarkerDpbm n.desc = true) (hk : n.replRank = k + 1)
     (hz : (zeroBits (dataPositions bsq0).length (bitmapNodes bsq0) 0)[k]? = some pos)
-    (hq1 : (dataPositions bsq0)[pos]? = some (q + 1)) (hq2 : bsq[q]? = some cbm) :
+    (hq1 : (dataPositions bsq0)[pos]? = some (q + 1)) (hq2 : (bsq ())[q]? = some cbm) :
     bmPre bsq ddo { dpbm := some d, remainDpi := r } n =
       .ret { dpbm := some d, remainDpi := r }
         { n with enc := cbm.enc, val := (markerVal cbm).1, afW := (markerVal cbm).2.1, afBits := (markerVal cbm).2.2 } :=
